@@ -217,7 +217,8 @@ def symbolic_for(ex, st, stmt, it):
                 ex.component(head, seq, elem)
             next_done = None
         if inv is not None:
-            head.assume(inv(mkctx(head, i, done, elem)))
+            from . import solve as _solve
+            head.assume(_solve.close_free(inv(mkctx(head, i, done, elem))))
         if not ex.feasible(head):
             body_results = []
             break
@@ -250,7 +251,8 @@ def symbolic_for(ex, st, stmt, it):
     # 3. exit
     ex_st = havoc(ex, entry, modL, modH, modG, tag + "_x", mutates)
     if inv is not None:
-        ex_st.assume(inv(mkctx(ex_st, n, Val.dhas(it.d) if dict_mode else None)))
+        from . import solve as _solve
+        ex_st.assume(_solve.close_free(inv(mkctx(ex_st, n, Val.dhas(it.d) if dict_mode else None))))
     ex_st.sig.append("loop#%d:exit" % ordinal)
     if ex.feasible(ex_st):
         if stmt.orelse:
@@ -276,7 +278,8 @@ def exec_while(ex, st, stmt):
     for _round in range(6):
         head = havoc(ex, entry, modL, modH, modG, tag + "_%d" % _round, mutates)
         if inv is not None:
-            head.assume(inv(mkctx(head)))
+            from . import solve as _solve
+            head.assume(_solve.close_free(inv(mkctx(head))))
         body_results, exits = [], []
         for s0, oc in ex.eval(head, stmt.test):
             if oc[0] == "raise":
